@@ -72,8 +72,12 @@ def ixL (s : IxState) : List T → IxState
   | t :: ts => ixL (ixT s t) ts
 end
 
+/-- the declaration of an indexed type / const parameter: the code keeps one table per kind (param.rs:40-48, 205-222),
+    a lifetime parameter of the same spelling (`'a` next to `a`) is never looked at -/
 def paramNode (generics : T) (x : String) : Option T :=
-  (genericsParams generics).find? (fun p => paramIdent p == some x)
+  (genericsParams generics).find? (fun p => (match p with
+    | .node "GenericParam::Lifetime" _ _ => false
+    | _ => true) && paramIdent p == some x)
 
 def insertByIdx (x : Nat × T) : List (Nat × T) → List (Nat × T)
   | [] => [x]
